@@ -25,6 +25,8 @@ enum Item {
     ReuseFwd, // <reuse href="#tpl" v="7" xy="#z|h"/>: an instantiation which is itself deferred
     G(Vec<Item>),  // <g v="5">..</g>
     GW(Vec<Item>), // <g w="6">..</g>
+    GX(Vec<Item>), // <g w="$v">..</g>      : a local bound to the value another variable has where the group opens
+    GV(Vec<Item>), // <g v="${v}y">..</g>   : a local defined in terms of the outer variable of the same name
     Loop(Vec<Item>),
     If(Vec<Item>),
 }
@@ -35,7 +37,7 @@ fn nodes(items: &[Item]) -> usize {
     items
         .iter()
         .map(|i| match i {
-            Item::G(b) | Item::GW(b) | Item::Loop(b) | Item::If(b) => 1 + nodes(b),
+            Item::G(b) | Item::GW(b) | Item::GX(b) | Item::GV(b) | Item::Loop(b) | Item::If(b) => 1 + nodes(b),
             _ => 1,
         })
         .sum()
@@ -79,6 +81,8 @@ fn trees(k: usize, depth: usize, memo: &mut HashMap<(usize, usize), Vec<Vec<Item
             for body in forests(k - 1, depth - 1, memo) {
                 out.push(Item::G(body.clone()));
                 out.push(Item::GW(body.clone()));
+                out.push(Item::GX(body.clone()));
+                out.push(Item::GV(body.clone()));
                 out.push(Item::Loop(body.clone()));
                 out.push(Item::If(body));
             }
@@ -105,6 +109,16 @@ fn render(items: &[Item], s: &mut String) {
             }
             Item::GW(b) => {
                 s.push_str("<g w=\"6\">");
+                render(b, s);
+                s.push_str("</g>");
+            }
+            Item::GX(b) => {
+                s.push_str("<g w=\"$v\">");
+                render(b, s);
+                s.push_str("</g>");
+            }
+            Item::GV(b) => {
+                s.push_str("<g v=\"${v}y\">");
                 render(b, s);
                 s.push_str("</g>");
             }
@@ -228,12 +242,24 @@ impl Env {
                     self.out.push(p);
                     self.scopes.pop();
                 }
-                Item::G(b) | Item::GW(b) => {
+                Item::G(b) | Item::GW(b) | Item::GX(b) | Item::GV(b) => {
                     let mut m = HashMap::new();
-                    if matches!(it, Item::G(_)) {
-                        m.insert("v".to_string(), "5".to_string());
-                    } else {
-                        m.insert("w".to_string(), "6".to_string());
+                    match it {
+                        Item::G(_) => {
+                            m.insert("v".to_string(), "5".to_string());
+                        }
+                        Item::GW(_) => {
+                            m.insert("w".to_string(), "6".to_string());
+                        }
+                        _ => {
+                            // evaluated where the group opens, in the enclosing scope
+                            let (k, t) = if matches!(it, Item::GX(_)) { ("w", "$v") } else { ("v", "${v}y") };
+                            let val = self.subst(t);
+                            if val.contains('$') {
+                                self.tainted = true;
+                            }
+                            m.insert(k.to_string(), val);
+                        }
                     }
                     self.scopes.push(m);
                     self.run(b);
@@ -271,7 +297,7 @@ fn contains(items: &[Item], pred: &dyn Fn(&Item) -> bool) -> bool {
     items.iter().any(|i| {
         pred(i)
             || match i {
-                Item::G(b) | Item::GW(b) | Item::Loop(b) | Item::If(b) => contains(b, pred),
+                Item::G(b) | Item::GW(b) | Item::GX(b) | Item::GV(b) | Item::Loop(b) | Item::If(b) => contains(b, pred),
                 _ => false,
             }
     })
@@ -374,7 +400,7 @@ fn check(items: &[Item], tpl_last: bool, root: bool) -> CaseResult {
         }
     }
     let has_defer = contains(items, &|i| matches!(i, Item::Fwd)) || (tpl_last && contains(items, &|i| matches!(i, Item::Reuse)));
-    let has_scope = contains(items, &|i| matches!(i, Item::G(_) | Item::GW(_) | Item::Reuse)) || contains(items, &is_var);
+    let has_scope = contains(items, &|i| matches!(i, Item::G(_) | Item::GW(_) | Item::GX(_) | Item::GV(_) | Item::Reuse)) || contains(items, &is_var);
     CaseResult {
         case_hash: hash64(&doc),
         nontrivial: out.is_ok() && exp.is_some() && has_scope && (has_defer || nodes(items) >= 2),
@@ -412,6 +438,30 @@ pub fn run(tier: Tier) -> i32 {
     rep.absorb("programs", st);
     rep.assume("loop / for / if are modelled as transparent (no scope of their own), as the documentation's loop examples and C16 require; other containers (defs, a, nested svg) are not in the grammar because the statement does not say whether they scope");
     rep.assume("known-finding class `deferred-side-effects` is decided structurally (a deferred top-level unit contains an assignment, or contains a probe while a later unit assigns); violations outside that class are never attributed to it");
+    // fixed scenarios outside the grammar (witnesses of defects found by reviewers)
+    let scenarios: Vec<(&str, &str, Vec<&str>)> = vec![
+        ("defaults-are-not-assignments", r#"<svg><defaults><_ k="1"/></defaults><var v="2"/><text text="[$k|$v]"/></svg>"#, vec!["[$k|2]"]),
+        ("group-local-from-expression", r#"<svg><var v="1"/><g k="{{$v + 1}}"><text text="[{{$k * 2}}]"/><var v="5"/><text text="[$k]"/></g></svg>"#, vec!["[4]", "[2]"]),
+        ("group-local-evaluated-at-open", r#"<svg><var w="1"/><g v="$w"><var w="2"/><text text="[$v|$w]"/></g><text text="[$w]"/></svg>"#, vec!["[1|2]", "[1]"]),
+        ("nested-group-shadowing", r#"<svg><g v="1"><g v="2"><text text="[$v]"/></g><text text="[$v]"/></g><text text="[$v]"/></svg>"#, vec!["[2]", "[1]", "[$v]"]),
+    ];
+    let st = run_space(scenarios.len(), |i| {
+        let (name, doc, want) = &scenarios[i];
+        let out = run_str(doc, &Cfg::plain());
+        let got = match &out {
+            Outcome::Ok(b) => observed_probes(b).unwrap_or_default(),
+            other => vec![other.brief()],
+        };
+        let ok = got.iter().map(|s| s.as_str()).collect::<Vec<_>>() == *want;
+        CaseResult {
+            case_hash: hash64(doc),
+            nontrivial: ok,
+            outcome_hash: hash64(&got),
+            executions: 1,
+            violation: if ok { None } else { Some(Violation { clause: "probe-values".into(), signature: format!("C15/scenario/{name}"), case: json!({"input": doc, "scenario": name}), detail: format!("{doc}\nexpected probes {want:?}\nobserved {got:?}") }) },
+        }
+    });
+    rep.absorb("scenarios", st);
     rep.finish()
 }
 
